@@ -78,6 +78,7 @@ Definition gerr_code (e : gerr) : N :=
   | EComponentMissingBase => 36 | ELibMustBeDictionary => 37 | EBadAngle => 38
   | EContour e => cerr_code e
   | EXmlAttr => 39 | EPublicObjectLibsMustBeDictionary => 40 | EObjectLibMustBeDictionary => 41
+  | EPlistWrite => 42 | EPreexistingObjectLibs => 43
   end.
 
 Definition tm_res (r : res glyph) : tm :=
